@@ -430,7 +430,54 @@ func indexDischarged(fn *ssa.Function, blk *ssa.BasicBlock, base, index ssa.Valu
 					return true
 				}
 			}
-			// range over another list of guarded equal length is not automatic
+			// range over another list A whose length was tested equal to len(base)
+			for _, ref := range *bo.Referrers() {
+				cmp, ok := ref.(*ssa.BinOp)
+				if !ok || cmp.Op != token.LSS || cmp.X != bo {
+					continue
+				}
+				lenA, ok := cmp.Y.(*ssa.Call)
+				if !ok {
+					continue
+				}
+				if bi, ok := lenA.Call.Value.(*ssa.Builtin); !ok || bi.Name() != "len" {
+					continue
+				}
+				listA := lenA.Call.Args[0]
+				for d := blk; d != nil; d = d.Idom() {
+					parent := d.Idom()
+					if parent == nil || len(parent.Instrs) == 0 {
+						continue
+					}
+					ifi, ok := parent.Instrs[len(parent.Instrs)-1].(*ssa.If)
+					if !ok {
+						continue
+					}
+					eq, ok := ifi.Cond.(*ssa.BinOp)
+					if !ok || (eq.Op != token.NEQ && eq.Op != token.EQL) {
+						continue
+					}
+					isLenOf := func(v, lst ssa.Value) bool {
+						c, ok := v.(*ssa.Call)
+						if !ok {
+							return false
+						}
+						bi, ok := c.Call.Value.(*ssa.Builtin)
+						return ok && bi.Name() == "len" && (c.Call.Args[0] == lst || rootOf(c.Call.Args[0], 0) == rootOf(lst, 0))
+					}
+					pair := (isLenOf(eq.X, listA) && isLenOf(eq.Y, base)) || (isLenOf(eq.Y, listA) && isLenOf(eq.X, base))
+					if !pair {
+						continue
+					}
+					eqSucc := parent.Succs[0]
+					if eq.Op == token.NEQ {
+						eqSucc = parent.Succs[1]
+					}
+					if eqSucc.Dominates(blk) {
+						return true
+					}
+				}
+			}
 		}
 	}
 	// 1b. down-counting loop: i starts at len(base)-1, steps by -1, tested i >= 0
